@@ -59,7 +59,12 @@ func drawIndex(st *simrt.Stream, np int) uint32 {
 func genHostile(st *simrt.Stream, spec *TorSpec, p *RefPeer) hostileMsg {
 	np := spec.Geo.NPieces
 	ps := uint32(spec.Geo.PieceSize)
-	idx := func() uint32 { return drawIndex(st, np) }
+	idx := func() uint32 {
+		if spec.Geo.PieceSize >= 1<<31 && st.Bool(1, 2) {
+			return ^uint32(0) - uint32(st.Choice(4)) // index x piece length leaves 63 bits
+		}
+		return drawIndex(st, np)
+	}
 	off := func() uint32 {
 		return simrt.Pick(st, 0, chunkSize, ps-chunkSize, ps, ps+chunkSize, 1, 1<<31, ^uint32(0), uint32(st.Choice(int(ps)+1)))
 	}
@@ -248,7 +253,14 @@ func hostileMain(rc *RunCtx) {
 	w := NewWorld(rc)
 	defer w.Shutdown()
 	magnet := st.Bool(1, 2)
-	spec := GenTorSpec(st, SpecOpts{MaxPieces: 8, MultiFile: 1, BigInfo: true})
+	opts := SpecOpts{MaxPieces: 8, MultiFile: 1, BigInfo: true}
+	if st.Bool(1, 16) {
+		// a legal oddity: one short piece under a piece length of 2 GiB and
+		// more (products of an index and the piece length leave 63 bits)
+		opts = SpecOpts{MultiFile: 1, PieceCounts: []int{1}, PieceSize: simrt.Pick(st, int64(1)<<31, 1<<31+16384, 1<<32-16384)}
+		simrt.Probe("piece-length-of-2GiB-or-more")
+	}
+	spec := GenTorSpec(st, opts)
 	quiet := st.Bool(1, 2)
 	config.SetIdleRate(0)
 	if !quiet {
